@@ -43,6 +43,9 @@ type Network struct {
 	MaxLatency  int     // index into latencies
 	Corrupt     func(frame []byte) []byte
 	nextConn    int
+	// Aliases maps another spelling of an address (a host name, another IP of
+	// the same host) to the address somebody listens on
+	Aliases map[string]string
 }
 
 var latencies = []time.Duration{0, 50 * time.Microsecond, 500 * time.Microsecond, 2 * time.Millisecond, 20 * time.Millisecond}
@@ -218,6 +221,9 @@ func dial(network, addr string) (*SimConn, error) {
 		return nil, &OpError{Op: "dial", Net: network, Addr: simAddr(addr), Err: errors.New("connect: connection refused (" + why + ")")}
 	}
 	l := n.listeners[addr]
+	if real, ok := n.Aliases[addr]; ok && l == nil {
+		l = n.listeners[real]
+	}
 	if l == nil || l.closed {
 		simrt.Fault("dial-no-listener")
 		return refuse("nobody listening")
